@@ -1,4 +1,5 @@
-import NitroVerif.Lemmas.CheckTs
+import NitroVerif.Lemmas.CheckTsValue
+import NitroVerif.Lemmas.CheckTsRec
 /-!
 # C05 — schema `check` verdict is exact on the implemented type-system rules
 
@@ -339,6 +340,70 @@ theorem C05_sound_directivesUnique (T : TsDoc) (h : checkSchema T = []) : Holds_
   · simp [hr]
   · simp [hc]
 
+/-- input object types of an accepted document have distinct field names -/
+theorem inputsNodup_of_accepted (T : TsDoc) (h : checkSchema T = []) : InputsNodup ⟨T⟩ := by
+  intro n td htd hk
+  have hmem := (typeDef_mem htd).1
+  have := (inputsOfT_facts h hmem).2
+  have hin : inputsOfT td = td.inputs := by simp [inputsOfT, hk]
+  rw [hin] at this
+  exact (noDup_iff_nodup _).mp this
+
+/-- In an accepted document no directive application gives an argument twice (§5.4.2). -/
+theorem C05_sound_directiveArgNamesUnique (T : TsDoc) (h : checkSchema T = []) :
+    directiveArgNamesUnique T = true := by
+  simp only [directiveArgNamesUnique, List.all_eq_true]
+  intro s hs d hd
+  obtain ⟨df, hdf, _, hargs, _⟩ := directive_application_facts T h s hs d hd
+  have hdfmem : df ∈ ValidTs.directiveDefs T := by
+    unfold Schema.directiveDef? at hdf
+    exact List.mem_of_find?_eq_some hdf
+  have hnd : (df.args.map (·.name)).Nodup :=
+    (noDup_iff_nodup _).mp (checkArgsDef_nil (directiveDef_parts h hdfmem).2.2).2
+  exact (noDup_iff_nodup _).mpr (checkArguments_nil hnd hargs).2.2
+
+/-- In an accepted document every directive application uses only arguments its definition declares, gives
+    every required argument, and gives each argument a constant of the right type (spec input coercion:
+    null only for nullable types, Int for Float / ID, one item for a list, enum members, input objects with
+    only declared fields, none twice, all required ones). -/
+theorem C05_sound_directiveArgs (T : TsDoc) (h : checkSchema T = []) : Holds_directiveArgs T := by
+  simp only [Holds_directiveArgs, directiveArgs, List.all_eq_true]
+  intro s hs d hd
+  obtain ⟨df, hdf, _, hargs, _⟩ := directive_application_facts T h s hs d hd
+  rw [hdf]
+  dsimp only
+  have hdfmem : df ∈ ValidTs.directiveDefs T := by
+    unfold Schema.directiveDef? at hdf
+    exact List.mem_of_find?_eq_some hdf
+  have hnd : (df.args.map (·.name)).Nodup :=
+    (noDup_iff_nodup _).mp (checkArgsDef_nil (directiveDef_parts h hdfmem).2.2).2
+  obtain ⟨h1, h2, hkeys⟩ := checkArguments_nil hnd hargs
+  simp only [directiveArgsOk, Bool.and_eq_true, List.all_eq_true, Bool.or_eq_true, Bool.not_eq_true']
+  refine ⟨?_, fun ad had => (h1 ad had).1⟩
+  intro a ha
+  obtain ⟨ad, had, hname⟩ := h2 a ha
+  have hfind := find?_key_of_nodup (fun (x : InputValueDef) => x.name) df.args hnd ad had
+  simp only [hname] at hfind
+  rw [hfind]
+  dsimp only
+  have hfa := find?_key_of_nodup (fun (x : Arg) => x.1) d.args hkeys a ha
+  rw [← hname] at hfa
+  have := (h1 ad had).2 a hfa
+  exact checkValue_sound (inputsNodup_of_accepted T h) _ _ (Nat.le_refl _) _ this
+
+/-- `directive @d(a: Int) on OBJECT   type Query @d(a: 1, a: "x") { f: Int }` -/
+def duplicateArgSchema : TsDoc :=
+  [.typeDef { kind := .scalar, name := "Int" },
+   .directiveDef { name := "d", args := [{ name := "a", ty := .named "Int" {} }], locations := ["OBJECT"] },
+   .typeDef { kind := .object, name := "Query",
+              dirs := [{ name := "d", args := [("a", {}, .int "1" {}), ("a", { line := 1 }, .str "x" {})] }],
+              fields := [{ name := "f", ty := .named "Int" {} }] }]
+
+/-- a repeated argument is reported (since the repair a341d33; before it, the ill-typed second value was
+    accepted unseen) -/
+theorem C05_duplicate_argument_reported :
+    checkSchema duplicateArgSchema = [(.DuplicatedName, { line := 1 })] := by decide
+
 /-! ## recursive directive definitions -/
 
 /-- `directive @r(x: In) on INPUT_FIELD_DEFINITION  input In { n: In2 }  input In2 { a: Int @r }` -/
@@ -366,36 +431,48 @@ theorem C05_directive_self_reference_reported :
                        locations := ["ARGUMENT_DEFINITION"] }] =
       [(.RecursingDirective, {})] := by decide
 
-/-
-OPEN — carried by K/O only (statements kept, not proved):
+/-- `check_directive_recursion` is exact on the graph it explores. The graph (`succNames`, on directive
+    names): `a → b` when `@b` is applied to an argument of the definition of `@a`, or anywhere inside the
+    definition of the TYPE of such an argument (type-level, its fields, enum values or input fields — one
+    level deep, not through the types of those input fields). `RecursingDirective` is reported for `d`
+    exactly when `d` reaches itself along at least one edge; the search never runs out of its `|T| + 2`
+    rounds of fuel. Stated for the definition the checker's hash map holds for its name … -/
+theorem directiveRec_iff_canonical (T : TsDoc) (d : DirectiveDef) (hc : Canonical T d) :
+    checkDirectiveRecursion T d ≠ [] ↔ Reaches T d.name d.name :=
+  checkDirectiveRecursion_iff T d hc
 
-theorem C05_sound_directiveArgs (T : TsDoc) (h : checkSchema T = []) : Holds_directiveArgs T
-  -- every application has only defined arguments, all required ones, and constant values of the right
-  -- type. `directive_application_facts` already gives `checkArguments ⟨T⟩ d.pos d.args df.args = []` for
-  -- every application; what is missing is `checkValue S v ty = [] → valueOk S v ty` (mutual induction over
-  -- literals; the input-object case needs a counting argument: "as many expected fields present as the
-  -- literal has fields" + unique field names ⇒ every key is defined and no key is repeated).
-  -- O: 17 labelled faults × every location; K: every literal shape.
-
-theorem C05_sound_noRecursiveDirectives_partial (T : TsDoc) (h : checkSchema T = [])
-    (hflat : no input object reachable from a directive argument has an input field of an input-object type
-             whose definition contains directive applications) : Holds_noRecursiveDirectives T
-  -- the full statement is false (counterexample above).
-
-theorem directiveRec_iff (T : TsDoc) (d : DirectiveDef) (hd : .directiveDef d ∈ T)
+/-- … which is every directive definition of a document with unique directive names. -/
+theorem directiveRec_iff (T : TsDoc) (d : DirectiveDef) (hd : d ∈ ValidTs.directiveDefs T)
     (hu : uniqueDirectiveNames T = true) :
-    checkDirectiveRecursion T d ≠ [] ↔ Relation.TransGen (fun a b => b ∈ dirSuccessors T a) d d
-  -- RecursingDirective is reported for d exactly when d reaches itself in the model's directive
-  -- reference graph (edges = `dirSuccessors`: directives on d's arguments and in the definition of each
-  -- argument's type). Needs: fuel adequacy of `recLoop` (each continuing round adds a new name to `seen`,
-  -- at most |T| + 1 names) and the BFS invariant. K: 12 recursion shapes incl. diamonds, cycles behind a
-  -- non-recursive directive, cycles through enum values / scalars / input fields / extensions.
+    checkDirectiveRecursion T d ≠ [] ↔ Reaches T d.name d.name :=
+  checkDirectiveRecursion_iff T d (canonical_of_unique hu hd)
 
-theorem C05_complete (T : TsDoc) (h : TsSpecValid T) : checkSchema T = []
-  -- spec-valid documents get no diagnostic. O: valid-by-construction schemas confirmed by `tsSpecValid`
-  -- (all seven kinds, extensions over ≤ 3 files, interface chains / diamonds, directives at every location,
-  -- spec input coercions Int→Float, Int→ID, item→list, additional non-null argument with default) get zero
-  -- diagnostics from the real check.
+example : uniqueDirectiveNames nestedRecursionSchema = true ∧
+    (nestedRecursionSchema.filterMap fun | .directiveDef d => some d.name | _ => none) = ["r"] := by decide
+
+/-- In an accepted document with unique directive names no directive definition reaches itself in the
+    reference graph the code explores. This is the recursion rule restricted to that graph; the rule of the
+    specification also follows the types of input fields transitively, and for that graph the statement is
+    false (`C05_sound_noRecursiveDirectives_counterexample`). -/
+theorem C05_sound_noRecursiveDirectives_partial (T : TsDoc) (hu : uniqueDirectiveNames T = true)
+    (h : checkSchema T = []) : ∀ d ∈ ValidTs.directiveDefs T, ¬ Reaches T d.name d.name := by
+  intro d hd hreach
+  have := (directiveDef_parts h hd).1
+  exact (directiveRec_iff T d hd hu).mpr hreach this
+
+example : uniqueDirectiveNames sampleSchema = true ∧ checkSchema sampleSchema = [] := by decide
+
+/-
+Nothing of the C05 statement is left OPEN. Completeness (`C05_complete`) is in Props/C05Complete.lean.
+
+Two clauses of the statement are FALSE of the code and therefore proved only in restricted form:
+* `checkSchema T = [] → Holds_noRecursiveDirectives T` (recursion rule of the specification, which follows the
+  types of input fields transitively): counterexample `C05_sound_noRecursiveDirectives_counterexample`; what
+  holds is `C05_sound_noRecursiveDirectives_partial` (the graph the code explores) and `directiveRec_iff`.
+* `checkSchema T = [] → Holds_knownTypes T`: counterexample `C05_sound_knownTypes_counterexample` (root
+  operation types); what holds is `C05_sound_knownTypes_partial`.
+Not proved (not needed by any statement): the converse `NoSpecRecursion T → noRecursiveDirectives T = true`
+(every node of the executable closure is reached by the relation).
 -/
 
 end NitroVerif.CheckTs
